@@ -25,6 +25,8 @@ EXPORTERS = {"to_arrow": "pyarrow.array", "to_pandas": "pandas.DataFrame", "to_l
 
 def check(ctx):
     repo = ctx.repo
+    from . import generic as _gen
+    _gen.language_traps(ctx, _gen.anchor_functions(repo, "C13"), "the property holds for every input, on every call")
     from . import generic
     generic.bool_is_int(ctx, generic.module_functions(repo, "dataiter.data_frame", "dataiter.vector", "dataiter.list_of_dicts", "dataiter.util"),
                         "the same dtype for every boolean, integer, float and string column")
